@@ -18,6 +18,23 @@ from .sym import (DTYPE_RANGE, EngineError, V, VBool, VDict, VFunc, VInt, VMat, 
                   is_concrete_true, parse_kind, sort_of, to_term)
 
 
+def _hard_term(t, budget=400):
+    """does the arithmetic term truncate (to_int), divide, or multiply two non-constant factors?"""
+    stack, seen = [t], 0
+    while stack and seen < budget:
+        x = stack.pop()
+        seen += 1
+        if not z3.is_app(x):
+            continue
+        k = x.decl().kind()
+        if k in (z3.Z3_OP_TO_INT, z3.Z3_OP_IDIV, z3.Z3_OP_DIV, z3.Z3_OP_MOD, z3.Z3_OP_REM):
+            return True
+        if k == z3.Z3_OP_MUL and sum(1 for a in x.children() if not (z3.is_int_value(a) or z3.is_rational_value(a))) >= 2:
+            return True
+        stack.extend(x.children())
+    return False
+
+
 class Obligation:
     def __init__(self, name, assumptions, goal, kind='vc', expect='unsat', text=''):
         self.name = name
@@ -140,6 +157,7 @@ class Interp:
     # ------------------------------------------------------------------ entry point
     def verify(self, contract):
         """Generate the obligations of one function under contract."""
+        sym.set_scope(contract['key'])
         self.cur = contract
         sym.STRING_MODE[0] = contract.get('strings', 'theory')
         fn = frontend.load_function(contract['module'], contract['qualname'])
@@ -180,6 +198,7 @@ class Interp:
 
     def frame_only(self, contract):
         """Only the syntactic frame obligation of a function (used for the callee closure of determinism properties)."""
+        sym.set_scope(contract['key'])
         self.cur = contract
         fn = frontend.load_function(contract['module'], contract['qualname'])
         self.fn = fn
@@ -961,6 +980,8 @@ class Interp:
         if isinstance(t, ast.Name) and t.id in (self.cur.get('local_kinds') or {}):
             v = self.typed_empty(v, self.cur['local_kinds'][t.id])
         if isinstance(t, ast.Name):
+            if t.id in (self.cur.get('name_scalars') or ()):
+                v = self.name_scalar(v, t.id, st)
             if t.id in st.glob and t.id not in st.env and self._is_global_decl(t.id):
                 st.glob[t.id] = v
             else:
@@ -985,6 +1006,17 @@ class Interp:
                 return
             raise EngineError(f'attribute store on {base!r}')
         raise EngineError(f'assignment target {type(t).__name__}')
+
+    def name_scalar(self, v, name, st):
+        """A scalar local whose value is a non-linear / truncating arithmetic term gets a name (fresh constant with a defining
+        equation): later VCs mention the name instead of a copy of the term everywhere (a conservative extension)."""
+        if not isinstance(v, (VInt, VReal)) or getattr(v, 'inf', None) is not None or st.guards:
+            return v
+        if not _hard_term(v.t) or any(self.stubs._mentions(v.t, b) for b in self.bound):
+            return v
+        c = (z3.Int if isinstance(v, VInt) else z3.Real)(fresh_name(name + '@def'))
+        self.assume(st, c == v.t)
+        return VInt(c, dtype=v.dtype) if isinstance(v, VInt) else VReal(c)
 
     def _is_global_decl(self, name):
         for n in ast.walk(self.fn.node):
@@ -1026,6 +1058,16 @@ class Interp:
                     base.arr = z3.Lambda([i], z3.If(z3.And(i >= lo, i < hi), term, base.arr[i]))
                 if base.init is not None:
                     base.init = z3.Lambda([i], z3.Or(z3.And(i >= lo, i < hi), base.init[i]))
+                if not st.guards and not any(self.stubs._mentions(base.arr, b) for b in self.bound):
+                    # name the updated array (and its init map): pointwise definitions instead of nested lambda terms, which
+                    # e-matching only sees after lazy beta-reduction (measured: the same VC flips between 0.6 s and a timeout)
+                    G = z3.Array(fresh_name('sl.arr'), z3.IntSort(), sort_of(base.ek))
+                    self.assume(st, z3.ForAll([i], G[i] == z3.simplify(base.arr[i]), patterns=[G[i]]))
+                    base.arr = G
+                    if base.init is not None:
+                        Gi = z3.Array(fresh_name('sl.init'), z3.IntSort(), z3.BoolSort())
+                        self.assume(st, z3.ForAll([i], Gi[i] == z3.simplify(base.init[i]), patterns=[Gi[i]]))
+                        base.init = Gi
                 return
             idx = self.eval(sl, st)
             if isinstance(idx, VSeq) and idx.ek == 'bool':
